@@ -303,9 +303,6 @@ func (ex *Exec) applyContract(st *State, fr *Frame, ct *Contract, key string, ar
 	old := st.snapshot()
 	env := &Env{ex: ex, st: st, old: old, vars: vars, fr: fr, pkg: ex.pkgOfKey(key), calleeCtx: true}
 	for _, r := range ct.Requires {
-		if !ex.active(r.Props) {
-			continue
-		}
 		t, err := ex.evalSpecBool(r.Expr, env)
 		if err != nil {
 			ex.errors = append(ex.errors, fmt.Sprintf("%s: requires %s of %s: %v", funcKey(ex.top), r.Label, key, err))
@@ -317,9 +314,6 @@ func (ex *Exec) applyContract(st *State, fr *Frame, ct *Contract, key string, ar
 	// call-site obligations of the function under verification
 	if fr.contract != nil {
 		for _, cr := range fr.contract.CallReqs {
-			if !ex.active(cr.Props) {
-				continue
-			}
 			if (cr.Callee == short || cr.Callee == key || strings.HasSuffix(key, "."+cr.Callee) || strings.HasSuffix(key, ")."+cr.Callee)) && (cr.CallN == 0 || cr.CallN == ord) {
 				avars := map[string]Val{}
 				for ai, a := range args {
